@@ -89,11 +89,22 @@ type C12Case struct {
 	Self    bool `json:"self,omitempty"`
 	Burst   int  `json:"burst,omitempty"`
 	SelfOps []Op `json:"self_ops,omitempty"`
+	// SyncUS: interval of the periodic flusher in the free-running and the
+	// single-writer part (0 = one hour, i.e. no periodic flush at all), so
+	// that ticks and writers' signals meet.
+	SyncUS int `json:"sync_us,omitempty"`
+}
+
+func (c C12Case) syncInterval() time.Duration {
+	if c.SyncUS > 0 {
+		return time.Duration(c.SyncUS) * time.Microsecond
+	}
+	return time.Hour
 }
 
 const c12Rule = "1-3 writer tasks (Put/Remove) on a store with BurstRate(0) and a pinned tiny flush rate (verif-tagged setter) so that every write enters the waiting path, the real flusher goroutine adopted as a scheduled task at its first named point, 0-2 explicit Flush tasks; the cooperative scheduler parks tasks at the named points in flushTick (measured, decided, registered, signalled), Flush and run and follows a generated schedule (single long preemption at a drawn point, PCT-style priorities, random walk); " +
 	"oracle = bounded-liveness closure: after the generated schedule everything runs freely and three further explicit Flush() calls complete; every writer must return. The verdict is taken from goroutine states, not from elapsed time: a writer still in the channel receive of the back-pressure wait while the flusher sits idle in its select and no Flush is in progress can never be released. " +
-	"Single-writer part: one writer, burst rates 0..4000, 5-60 Put/Remove calls with values of 1-200 bytes on keys of few buckets, periodic interval one hour and no Flush issued by the harness: a call that waits must be released by the flush it asked for itself (same state-based verdict, taken while the call is still waiting). " +
+	"Single-writer part: one writer, burst rates 0..4000, 5-60 Put/Remove calls with values of 1-200 bytes on keys of few buckets, periodic interval one hour (or 20 us..1 ms, so that ticks meet the writer's signals) and no Flush issued by the harness: a call that waits must be released by the flush it asked for itself (same state-based verdict, taken while the call is still waiting). " +
 	"non-trivial = a flush completed between a writer's decision to wait and its registration for the notice (observed in the event order); (scheduled part), >=2 writers (free-running part), the writer did enter the wait (single-writer part); distinct = distinct canonical JSON of the case"
 
 var c12Points = []string{"tick.measured", "tick.decided", "tick.registered", "tick.signalled", "flush.stamped", "flush.committed", "put.indexed", "remove.done", "run.flushNow"}
@@ -233,11 +244,12 @@ func runC12Free(c C12Case) (st c12Stats, v *Violation) {
 }
 
 type c12Stats struct {
-	windowHit  bool
-	allDone    bool
-	preempt    int
-	skipped    bool
-	foreignErr string
+	selfBlocked bool
+	windowHit   bool
+	allDone     bool
+	preempt     int
+	skipped     bool
+	foreignErr  string
 }
 
 // runC12Self: "including a single writer with no other traffic". The writer's
@@ -250,7 +262,7 @@ func runC12Self(c C12Case) (st c12Stats, v *Violation) {
 	defer os.RemoveAll(dir)
 	s, err := store.OpenStore(bg, store.MultihashPrimary, dir+"/"+dataBase, dir+"/"+idxBase, false,
 		store.IndexBitSize(8), store.IndexFileSize(1<<20), store.PrimaryFileSize(1<<20),
-		store.GCInterval(0), store.SyncInterval(time.Hour), store.BurstRate(uint64(c.Burst)))
+		store.GCInterval(0), store.SyncInterval(c.syncInterval()), store.BurstRate(uint64(c.Burst)))
 	if err != nil {
 		panic(infraError{err})
 	}
@@ -294,7 +306,14 @@ func runC12Self(c C12Case) (st c12Stats, v *Violation) {
 				case strings.Contains(g.stack, ".(*Store).flushTick") && g.state == "chan receive":
 					waiting++
 				case strings.Contains(g.stack, ".(*Store).run") && g.state == "select" && !strings.Contains(g.stack, ".(*Store).Flush"):
+					// Idle for good only if the next tick is an hour away.
+					flusherIdle = c.SyncUS == 0
+				case strings.Contains(g.stack, ".(*Store).run") && g.state == "chan send" && !strings.Contains(g.stack, ".(*Store).Flush"):
+					// The flusher loop itself blocks in a channel send. Nothing
+					// but this loop receives from the store's channels, so it
+					// will never flush again.
 					flusherIdle = true
+					st.selfBlocked = true
 				case strings.Contains(g.stack, ".(*Store).Flush") || strings.Contains(g.stack, ".(*Store).commit"):
 					flushing = true
 				}
@@ -308,6 +327,11 @@ func runC12Self(c C12Case) (st c12Stats, v *Violation) {
 					case <-done:
 						break wait
 					default:
+					}
+					if st.selfBlocked {
+						v = viol("writer-never-released|single-writer|flusher-blocked-in-its-own-loop", i, "call %d (%s, burst rate %d, periodic interval %v) waits for the flush notice while the flusher goroutine is blocked in a channel send inside its own loop (stable over 4 samples) and no flush is in progress: nobody else receives from that channel, so no flush will ever happen again", i, op.K, c.Burst, c.syncInterval())
+						stuck = true
+						break wait
 					}
 					v = viol("writer-never-released|single-writer|not-released-by-its-own-flush", i, "call %d (%s, burst rate %d) of a single writer with no other traffic waits for the flush notice, the flusher is idle in its select (next periodic flush in an hour) and no flush is in progress: the flush the writer asked for has completed without releasing it", i, op.K, c.Burst)
 					stuck = true
@@ -605,6 +629,7 @@ func TestC12(t *testing.T) {
 		}
 		c := C12Case{Self: true}
 		c.Burst = []int{0, 1, 40, 200, 1000, 4000}[rapid.IntRange(0, 5).Draw(rt, "burst")]
+		c.SyncUS = []int{0, 20, 50, 200, 1000}[weighted(rt, "syncus", []int{3, 1, 1, 1, 1})]
 		c.Keys = genKeys(rt, Config{Primary: store.MultihashPrimary, Bits: 8}, 2, 8)
 		c.SelfOps = rapid.SliceOfN(rapid.Custom(func(t *rapid.T) Op {
 			op := Op{K: []string{opPut, opRemove}[weighted(t, "kind", []int{6, 1})]}
@@ -613,7 +638,7 @@ func TestC12(t *testing.T) {
 			return op
 		}), 5, 60).Draw(rt, "ops")
 		st, v := runC12(c)
-		cl := []string{"single-writer-self-release", fmt.Sprintf("burst-%d", c.Burst)}
+		cl := []string{"single-writer-self-release", fmt.Sprintf("burst-%d", c.Burst), fmt.Sprintf("periodic-interval-us-%d", c.SyncUS)}
 		if st.windowHit {
 			cl = append(cl, "single-writer-did-wait")
 		}
